@@ -706,6 +706,158 @@ def _d8(chk, fb):
     chk.floor("D8", "doInit implementations", n, 8)
 
 
+def _d9(chk, fb, fns):
+    """bound-branch agreement: in an if / else-if chain whose branches are selected by comparisons with two sibling vector members of one type (the
+    upper and the lower bound vectors), the statement of a branch uses the bound its own condition tests.  A branch whose
+    condition mentions only B while its statement mentions only the sibling A - and another branch of the chain pairs A with A -
+    clips to the wrong bound: refuted.  Chains in which a branch mentions both or neither are not judged"""
+    n = 0
+    for f in fns:
+        if f.body is None:
+            continue
+        seen = set()
+        for top in [x for x in f.all_nodes() if x["k"] == "IfStmt"]:
+            par = f.parent.get(top["id"])
+            if par is not None and par["k"] == "IfStmt" and par.get("else") == top["id"]:
+                continue
+            chain = []
+            cur = top
+            while cur is not None and cur["k"] == "IfStmt":
+                chain.append((f.nodes[cur["cond"]], f.nodes[cur["then"]]))
+                cur = f.nodes.get(cur["else"]) if "else" in cur else None
+            if len(chain) < 2:
+                continue
+
+            def fields(node):
+                return {x["member"]["name"] for x in walk(node) if x["k"] == "MemberExpr" and x["member"].get("this") and x["member"].get("kind") == "field"}
+            cf = [fields(c) for c, _ in chain]
+            bf = [fields(b) for _, b in chain]
+            # sibling members: each appears in exactly one condition of the chain, same type
+            only = {}
+            for k_, s_ in enumerate(cf):
+                for m in s_:
+                    if sum(1 for t_ in cf if m in t_) == 1:
+                        only.setdefault(k_, set()).add(m)
+            idx = sorted(only)
+            for i_ in idx:
+                for j_ in idx:
+                    if i_ >= j_:
+                        continue
+                    for A in sorted(only[i_]):
+                        for B in sorted(only[j_]):
+                            tyA = [fl["ty"] for fl in fb.classes.get(f.cls or "", {}).get("fields", []) if fl["name"] == A]
+                            tyB = [fl["ty"] for fl in fb.classes.get(f.cls or "", {}).get("fields", []) if fl["name"] == B]
+                            if not tyA or tyA != tyB or "vector" not in tyA[0] or (top["id"], A, B) in seen:
+                                continue
+                            seen.add((top["id"], A, B))
+                            uses = [(A in bf[i_], B in bf[i_]), (A in bf[j_], B in bf[j_])]
+                            if not any(uses[0]) and not any(uses[1]):
+                                continue
+                            n += 1
+                            con = "branch-uses-own-bound:%s/%s" % (A, B)
+                            if uses[0] == (True, False) and uses[1] == (False, True):
+                                chk.proved("D9", f.key, con, f.loc(top), "the branch testing %s uses %s, the branch testing %s uses %s" % (A, A, B, B))
+                            elif uses[0] == (True, False) and uses[1] == (True, False):
+                                chk.refuted("D9", f.key, con, f.loc(chain[j_][1]),
+                                            "the branch selected by a comparison with %s computes with %s, exactly as the branch selected by %s does: a point that crosses the bound %s is moved to (or scaled by) the bound on the other side" % (B, A, A, B),
+                                            witness={"input": "a constrained parameter whose step crosses the bound %s" % B})
+                            elif uses[0] == (False, True) and uses[1] == (False, True):
+                                chk.refuted("D9", f.key, con, f.loc(chain[i_][1]),
+                                            "the branch selected by a comparison with %s computes with %s, exactly as the branch selected by %s does: a point that crosses the bound %s is moved to (or scaled by) the bound on the other side" % (A, B, B, A),
+                                            witness={"input": "a constrained parameter whose step crosses the bound %s" % A})
+                            else:
+                                chk.unknown("D9", f.key, con, f.loc(top), "branches mention both or neither sibling: not judged")
+    chk.floor("D9", "if-chains selecting between two sibling bound members", n, 2)
+
+
+def _d11(chk, fb, fns):
+    """a direction set keeps distinct columns: when one block stores into two columns of the same two-dimensional member
+    (M[r][a] = X and M[r][b] = Y, a and b different expressions), the second store must not read the column the first one has
+    just overwritten (M[r][b] = M[r][a] after M[r][a] = X makes both columns equal to X: the set loses rank and the old content
+    of column a is gone).  The order 'save the old column, then overwrite it' is proved"""
+    n = 0
+    for f in fns:
+        if f.body is None:
+            continue
+        cfg = f.cfg
+        stores = []
+        for x in f.all_nodes():
+            if x["k"] == "BinaryOperator" and x.get("op") == "=":
+                l_ = strip(kids(x)[0])
+                if is_call(l_) and l_["callee"]["name"] == "operator[]" and "obj" in l_:
+                    o_ = strip(f.obj(l_))
+                    if is_call(o_) and o_["callee"]["name"] == "operator[]" and "obj" in o_:
+                        root = strip(f.obj(o_))
+                        if root is not None and root["k"] == "MemberExpr" and root["member"].get("this"):
+                            stores.append((x, root["member"]["name"], render(f.args(o_)[0]), render(f.args(l_)[0]), render(l_), render(kids(x)[1])))
+        for i_, (x1, m1, r1, c1, t1, rhs1) in enumerate(stores):
+            for (x2, m2, r2, c2, t2, rhs2) in stores[i_ + 1:]:
+                if m1 != m2 or r1 != r2 or c1 == c2:
+                    continue
+                b1, b2 = cfg.stmt_block(x1), cfg.stmt_block(x2)
+                if b1 is None or b1 != b2:
+                    continue
+                first, second = ((x1, t1, rhs1, c1), (x2, t2, rhs2, c2)) if e1.earlier_in_block(cfg, x1, x2) else ((x2, t2, rhs2, c2), (x1, t1, rhs1, c1))
+                n += 1
+                con = "columns-stay-distinct:%s[%s]/[%s]" % (m1, c1, c2)
+                if second[2] == first[1]:
+                    chk.refuted("D11", f.key, con, f.loc(second[0]),
+                                "'%s = %s' is followed by '%s = %s' in the same block: the second store reads the column the first has just overwritten, so both columns of %s end up equal and the previous content of column [%s] is lost (a direction set with two equal columns no longer spans the space)" % (
+                                    first[1], first[2][:40], second[1], second[2][:40], m1, first[3]),
+                                witness={"input": "a coupled quadratic in 3 dimensions: the search stops in a subspace"})
+                else:
+                    chk.proved("D11", f.key, con, f.loc(first[0]), "the two columns receive different values (%s is read before it is overwritten)" % (first[2][:40]))
+    chk.floor("D11", "blocks storing into two columns of one two-dimensional member", n, 1)
+
+
+def _d10(chk, fb, fns):
+    """hand-over to a nested optimiser: a parameter list kept in a member and handed to a nested optimiser's init() is brought up
+    to date from the optimiser's current parameters (match/set...ParametersValues(getParameters()) on that very list, or an
+    assignment from getParameters()) on every path that reaches the init() - within the same loop iteration when the hand-over
+    sits in a loop.  Otherwise the nested run restarts from the point of its previous turn and the progress made by the other
+    stages in between is thrown away (the reported value can then exceed the value already reached)"""
+    n = 0
+    for f in fns:
+        if f.body is None:
+            continue
+        cfg = f.cfg
+        for c in f.calls():
+            if c["callee"]["name"] != "init" or "obj" not in c or len(f.args(c)) != 1 or "Optimizer" not in (c["callee"].get("cls") or ""):
+                continue
+            a = strip(f.args(c)[0])
+            root = a
+            while root is not None and is_call(root) and root["callee"]["name"] in ("operator[]", "at") and "obj" in root:
+                root = strip(f.obj(root))
+            if root is None or root["k"] != "MemberExpr" or not root["member"].get("this") or "ParameterList" not in (root.get("ty") or "") and "ParameterList" not in (a.get("ty") or ""):
+                continue
+            n += 1
+            atext = render(a)
+            con = "handover-refreshed:" + atext.replace("this.", "")[:40]
+            fresh = []
+            for x in f.calls():
+                if "obj" in x and render(f.obj(x)) == atext and x["callee"]["name"] in ("matchParametersValues", "setParametersValues", "setAllParametersValues", "operator=", "setParameters", "setAllParameters") \
+                        and f.args(x) and "getParameters" in render(f.args(x)[0]) and "obj" not in [k_ for k_ in ()]:
+                    src = render(f.args(x)[0]).replace("this.", "")
+                    if src.startswith("getParameters") or src.startswith("getParameters_"):
+                        fresh.append(x)
+            fblocks = {cfg.stmt_block(x) for x in fresh} - {None}
+            cb = cfg.stmt_block(c)
+            lp = f.enclosing(c, ("ForStmt", "WhileStmt", "DoStmt", "CXXForRangeStmt"))
+            start = cfg.entry
+            if lp is not None and "cond" in lp and lp["cond"] in f.nodes and cfg.stmt_block(f.nodes[lp["cond"]]) is not None:
+                start = cfg.stmt_block(f.nodes[lp["cond"]])
+            same = [x for x in fresh if cfg.stmt_block(x) == cb and e1.earlier_in_block(cfg, x, c)]
+            if same or (cb is not None and not e1.path_exists(cfg, start, cb, avoid_blocks=fblocks - {start})):
+                chk.proved("D10", f.key, con, f.loc(c), "every path to init(%s) refreshes that list from the current parameters first" % atext[:40])
+            elif not fresh:
+                chk.refuted("D10", f.key, con, f.loc(c),
+                            "%s hands the stored list %s to a nested optimiser's init() without ever bringing it up to date from the current parameters: the nested run starts from the values the list had at its previous turn and discards what the other stages have gained since" % (f.name, atext[:40]),
+                            witness={"history": "a meta-optimiser with two stages on a coupled objective: the second turn of stage 1 restarts from the end of its first turn"})
+            else:
+                chk.refuted("D10", f.key, con, f.loc(c), "a path reaches init(%s) without the refresh of that list from the current parameters" % atext[:40], witness={"history": "see the path"})
+    chk.floor("D10", "nested optimiser hand-overs from a stored list", n, 1)
+
+
 def run(chk, fb, tier):
     chk.rule("D1", "a loop from which doStep()/step() of the same object is reachable has a condition reading nbEval_ and nbEvalMax_; optimize() overriders delegate to the capped loop")
     chk.rule("D2", "init: parameters_ = params, then autoParameter()/ignoreConstraints() under the policy test, then doInit; policy loops cover 0..size; copies re-apply; bracketing/line search get getParameters()")
@@ -728,6 +880,12 @@ def run(chk, fb, tier):
     _d8(chk, fb)
     chk.rule("D7", "abscissa/value pairing: pairs grounded in evaluation events and bracket points, propagated through matching transfers of one block; a block that moves an abscissa from one point and the paired value from another is refuted")
     _d7(chk, fb, fns)
+    chk.rule("D9", "in an if / else-if chain selected by comparisons with two sibling bound members, each branch computes with the bound its own condition tests")
+    _d9(chk, fb, fns)
+    chk.rule("D10", "a stored parameter list handed to a nested optimiser's init() is refreshed from the current parameters on every path to that call (same loop iteration)")
+    _d10(chk, fb, fns)
+    chk.rule("D11", "two stores of one block into different columns of the same two-dimensional member: the second does not read the column the first has just overwritten")
+    _d11(chk, fb, fns)
     from . import argswap as _argswap
     chk.rule("DA", "argument/parameter name agreement at forwarding calls in the anchored units (same-typed parameters must not be swapped)")
     _af = ('src/Bpp/Numeric/Function/AbstractOptimizer.cpp', 'src/Bpp/Numeric/Function/BfgsMultiDimensions.cpp', 'src/Bpp/Numeric/Function/ConjugateGradientMultiDimensions.cpp', 'src/Bpp/Numeric/Function/PowellMultiDimensions.cpp', 'src/Bpp/Numeric/Function/DownhillSimplexMethod.cpp', 'src/Bpp/Numeric/Function/SimpleMultiDimensions.cpp', 'src/Bpp/Numeric/Function/SimpleNewtonMultiDimensions.cpp', 'src/Bpp/Numeric/Function/BrentOneDimension.cpp', 'src/Bpp/Numeric/Function/GoldenSectionSearch.cpp', 'src/Bpp/Numeric/Function/NewtonOneDimension.cpp', 'src/Bpp/Numeric/Function/NewtonBacktrackOneDimension.cpp', 'src/Bpp/Numeric/Function/OneDimensionOptimizationTools.cpp', 'src/Bpp/Numeric/Function/DirectionFunction.cpp', 'src/Bpp/Numeric/Function/MetaOptimizer.cpp', 'src/Bpp/Numeric/Function/OptimizationStopCondition.cpp', 'src/Bpp/Numeric/AutoParameter.cpp')
